@@ -151,6 +151,10 @@ func (h HHmm) MarshalUT0311L0x() ([]byte, error) {
 		return []byte{}, fmt.Errorf("unknown error encoding HHmm time %v to BCD", h)
 	}
 
+	if len(*encoded) != 2 {
+		return []byte{}, fmt.Errorf("HHmm time %v cannot be encoded as 2 BCD bytes", h)
+	}
+
 	return *encoded, nil
 }
 
